@@ -141,18 +141,29 @@ def _alone(arg):
     except Exception:
         box = None
     try:
-        m = Decoder().process(raw)
+        m = Decoder().process(raw, wire_template_data=False)
     except Exception:
         return None
     if m.n_subsets.value != 1 or m.is_compressed.value:
         return None
+    wired = True
+    try:
+        m.wire()
+        _nested_subsets(m)
+    except Exception:
+        # the content decodes, its hierarchical structure cannot be built: it still is a content - together
+        # with others its values, labels and links must be the same, and the structure must fail as well
+        wired = False
     w = bufrgen.walk(raw)
     nbits = None
     if box and 'a' in box and box['a'] == (w['sections'][4][0] + 4) * 8:
         nbits = box['b'] - box['a']
     out['nbits'] = nbits
     out['key'] = repr(tuple(m.table_group_key[1:]))
-    out['dig'] = _subset_digest(m, 0, _nested_subsets(m))
+    out['dig'] = _subset_digest(m, 0, _nested_subsets(m) if wired else None)
+    if not wired:
+        out['dig']['n'] = 'raise'
+    out['wired'] = wired
     fj = json.loads(json.dumps(FlatJsonRenderer().render(m), **JSON_DUMPS_KWARGS))
     out['vals'] = json.dumps(fj[-2][2][0])
     fj[-2][2] = []
@@ -169,8 +180,13 @@ def _alone(arg):
         except Exception:
             out['reenc'] = False
     try:
-        mc = Decoder(compiled_template_cache_max=2).process(raw)
-        out['cdig'] = _subset_digest(mc, 0, _nested_subsets(mc))
+        mc = Decoder(compiled_template_cache_max=2).process(raw, wire_template_data=False)
+        try:
+            mc.wire()
+            out['cdig'] = _subset_digest(mc, 0, _nested_subsets(mc))
+        except Exception:
+            out['cdig'] = _subset_digest(mc, 0, None)
+            out['cdig']['n'] = 'raise'
     except Exception:
         out['cdig'] = None
     return out
@@ -226,7 +242,7 @@ def gen_c06_spec(rng, rv, force_n=None):
 
     shape = rng.choice(['open-201', 'open-202', 'open-207', 'open-208', 'open-204', 'open-203', 'open-203-255',
                         'open-221', 'open-222', 'open-marker', 'open-marker', 'reuse-cancel', 'two-ops-no-235',
-                        'open-236'])
+                        'open-236', 'meaning-204', 'meaning-224', 'meaning-225'])
     # a delayed replication in front: the layout before the construct differs from content to content
     if rng.random() < 0.45 and 31001 in b:
         e0 = rng.choice(nums)
@@ -261,6 +277,27 @@ def gen_c06_spec(rng, rv, force_n=None):
         ids += [203000 + rng.randint(6, 16), e1, 203255, e1] + post[:1]
     elif shape == 'open-221':
         ids += [rng.choice(low), 221000 + rng.randint(3, 9), rng.choice(low), rng.choice(nums)]
+    elif shape == 'meaning-204' and 31021 in b and 31001 in b:
+        # the element that gives the associated field its meaning stands under a delayed replication: a subset
+        # that executes it zero times has no such element of its own - and must not inherit its predecessor's
+        n = rv.choice([0, 1, 2, 3]) if force_n is None else force_n
+        ids += [204000 + rng.randint(1, 8), 101000, 31001, 31021] + post + [204000]
+        bits.add(n, b[31001][4])
+        has_factor = True
+    elif shape in ('meaning-224', 'meaning-225') and 31001 in b and (8023 if shape == 'meaning-224' else 8024) in b:
+        op = 224000 if shape == 'meaning-224' else 225000
+        nb = rng.randint(1, k)
+        ids += [op] + ([236000] if rng.random() < 0.5 else []) + [101000 + nb, 31031]
+        bitmap = [rng.choice([0, 0, 1]) for _ in range(nb)]
+        if all(bitmap):
+            bitmap[rng.randrange(nb)] = 0
+        rv.shuffle(bitmap)
+        for bit in bitmap:
+            bits.add(bit, 1)
+        n = rv.choice([0, 1, 2, 3]) if force_n is None else force_n
+        ids += [101000, 31001, 8023 if op == 224000 else 8024] + [op + 255] * bitmap.count(0)
+        bits.add(n, b[31001][4])
+        has_factor = True
     else:
         op = 222000 if shape in ('open-222', 'two-ops-no-235') else rng.choice([222000, 223000, 224000, 225000, 232000])
         ids.append(op)
@@ -523,9 +560,17 @@ def execute(plan):
         ev = {'o': oi, 'via': via}
         reset_step_budget()
         try:
-            m = dec.process(raw)
-            nested = _nested_subsets(m)
+            m = dec.process(raw, wire_template_data=False)
+            try:
+                m.wire()
+                nested = _nested_subsets(m)
+            except Exception as e:
+                nested = None
+                ev['wire_exc'] = exc_info(e)['type']
             ev['r'] = [_subset_digest(m, i, nested) for i in range(m.n_subsets.value)]
+            if nested is None:
+                for r in ev['r']:
+                    r['n'] = 'raise'
             ev['nb'] = len(m.serialized_bytes) == len(raw)
         except Exception as e:
             ev['exc'] = exc_info(e)
@@ -585,9 +630,17 @@ def oracle(plan, tr):
             out.append({'property': 'C06', 'clause': clause, 'op': 'count'})
             continue
         bad = None
+        # a content whose hierarchical structure cannot be built alone: together with others the structure must
+        # fail as well (then nothing more is asked about structure); if every content can be wired alone, the
+        # structure of every position must be the one it has alone
+        unwireable = any(plan['alone'][i][which].get('n') == 'raise' for i in order)
         for p, (i, got) in enumerate(zip(order, ev['r'])):
             exp = plan['alone'][i][which]
             for key, name in (('c', 'values'), ('v', 'values'), ('l', 'labels'), ('k', 'links'), ('n', 'structure')):
+                if key == 'n' and unwireable:
+                    if got.get('n') != 'raise':
+                        bad = 'structure-built-although-a-subset-cannot-be-wired-alone'
+                    continue
                 if got.get(key) != exp.get(key):
                     bad = name
                     break
